@@ -786,9 +786,12 @@ func (e *Eng) evalBinary(st *State, x *ast.BinaryExpr) *Val {
 		op := map[token.Token]string{token.LSS: "<", token.LEQ: "<=", token.GTR: ">", token.GEQ: ">="}[x.Op]
 		return scalar(fmt.Sprintf("(%s %s %s)", op, l.T, r.T), "Bool", t)
 	case token.ADD:
-		if l.Sort == "Str" {
-			e.gap("string concatenation abstracted")
-			return e.freshVal("concat", t)
+		if l.Sort == "Str" && r.Sort == "Str" {
+			// concatenation: an uninterpreted function of both operands with the exact length
+			e.declareOnce("(declare-fun sconcat (Str Str) Str)")
+			v := scalar(fmt.Sprintf("(sconcat %s %s)", l.T, r.T), "Str", t)
+			e.assume(st, fmt.Sprintf("(= (slen %s) (+ (slen %s) (slen %s)))", v.T, l.T, r.T))
+			return v
 		}
 		if l.Sort == "Int" {
 			return scalar(e.define("a", "Int", e.wrap(t, fmt.Sprintf("(+ %s %s)", l.T, r.T))), "Int", t)
